@@ -8,12 +8,12 @@ res="$d/confirm.txt"; : > "$res"
 (
 cd "$wt"
 meson setup _build >/dev/null 2>&1 && ninja -C _build >/dev/null 2>&1 || { echo "base build failed" >> "$res"; exit 0; }
-sh "$d/run_demo.sh" "$wt" > "$d/demo_without.out" 2>&1; echo "demo_without_change_exit=$?" >> "$res"
+bash "$d/run_demo.sh" "$wt" > "$d/demo_without.out" 2>&1; echo "demo_without_change_exit=$?" >> "$res"
 if git apply --check "$d/patch.diff" 2>/dev/null; then git apply "$d/patch.diff"; else echo "patch does not apply" >> "$res"; exit 0; fi
 ninja -C _build >/dev/null 2>&1; echo "build_with_change_exit=$?" >> "$res"
 meson test -C _build --no-rebuild > "$d/tests_with.out" 2>&1; echo "tests_with_change_exit=$?" >> "$res"
 grep -E "^Ok:|^Fail:" "$d/tests_with.out" | tr -s ' ' | tr '\n' ' ' >> "$res"; echo >> "$res"
-sh "$d/run_demo.sh" "$wt" > "$d/demo_with.out" 2>&1; echo "demo_with_change_exit=$?" >> "$res"
+bash "$d/run_demo.sh" "$wt" > "$d/demo_with.out" 2>&1; echo "demo_with_change_exit=$?" >> "$res"
 )
 git -C /repo worktree remove --force "$wt"
 cat "$res"
